@@ -192,6 +192,34 @@ def c_flatten(ctx, case):
                 return
 
 
+@check("C11.terms")
+def c_terms(ctx, case):
+    """The flattening entry points that take the operands as a list (flattened_sum,
+    flattened_product): the result stands for the sum / product of ALL the operands handed in
+    -- also when one operand object occurs in the list (or below it) more than once."""
+    which, terms = case
+    ctx.case(None)
+    ctx.count("operand_list_calls")
+    whole = (p.Sum if which == "sum" else p.Product)(tuple(terms))
+    if not defined(whole):
+        return
+    fn = p.flattened_sum if which == "sum" else p.flattened_product
+    try:
+        out = fn(list(terms))
+    except RecursionError:
+        raise
+    except Exception as ex:  # noqa: BLE001
+        ctx.fail("C11.terms", case, f"flattened_{which}:raised:{type(ex).__name__}",
+                 f"flattened_{which}({[G.src(t) for t in terms]}) raised {type(ex).__name__}: {ex}")
+        return
+    if not value_preserved(ctx, "C11.terms", case, f"flattened_{which}", whole, out):
+        return
+    if isinstance(out, type(whole)) and any(type(c) is type(out) for c in out.children):
+        ctx.fail("C11.terms", case, f"flattened_{which}:shape",
+                 f"flattened_{which}({[G.src(t) for t in terms]}) = {G.src(out)} keeps a "
+                 f"{type(out).__name__} directly under itself")
+
+
 def fold_shape_ok(out, classes):
     for x in nodes(out):
         if type(x) in classes and sum(1 for c in x.children if is_num(c)) > 1:
@@ -606,6 +634,43 @@ def workload(ctx):
                     ctx.count("power_order_shapes")
                     ctx.run("C11.expand", (e, False))
                     ctx.run("C11.expand", (p.Product((p.Power(base, order[0]), p.Sum((p.Power(base, order[1]), 1)))), False))
+        # sharing: ONE operand object more than once in the operand list, directly and nested
+        for si, s_ in enumerate((p.Sum((x, y)), p.Sum((x, 2)), p.Product((x, y)), p.Product((2, x)),
+                                 p.Power(p.Sum((x, 1)), 2), p.Sum((p.Sum((x, y)), 1)),
+                                 p.Product((p.Product((x, y)), 3)))):
+            z_ = z
+            lists = [[s_, z_, s_], [s_, s_], [z_, s_, 1, s_, s_], [p.Sum((s_, z_)), p.Sum((2, s_))],
+                     [p.Product((s_, z_)), p.Product((2, s_))], [p.Sum((p.Sum((s_, z_)), p.Sum((2, s_))))],
+                     [p.Product((p.Product((s_, z_)), p.Product((2, s_))))], [s_, p.Product((3, s_))],
+                     [p.Sum((s_, s_)), s_], [p.Product((s_, s_)), s_]]
+            for li, ts in enumerate(lists):
+                if ctx.mine("terms"):
+                    ctx.case(("terms", si, li), True, n=0)
+                    ctx.run("C11.terms", ("sum", ts))
+                    ctx.run("C11.terms", ("product", ts))
+                    for e in (p.Sum(tuple(ts)), p.Product(tuple(ts))):
+                        ctx.count("shared_node_trees")
+                        ctx.run("C11.flatten", (e,))
+                        ctx.run("C11.fold", (e,))
+                        ctx.run("C11.expand", (e, False))
+        for i in range(ctx.per_shard(ctx.pick(300, 6000))):
+            r2 = ctx.sub_rng("graft", i)
+            e = gpoly(r2, r2.randint(2, 4), neg_pow=True, quot=True)
+            # (within the fragment's own rules: a node of the same class, with variables where
+            #  there were variables, nothing inside an opaque atom's arguments)
+            e = scale.graft(e, r2, same_type=True,
+                            avoid_fields=("function", "aggregate", "parameters", "index"),
+                            accept=lambda o, n_: bool(G.variables_of(n_)) or not G.variables_of(o)) \
+                if isinstance(e, p.Expression) else None
+            if e is None:
+                continue
+            ctx.case(("graft", normal.typed_key(e)), True, n=0)
+            ctx.count("shared_node_trees")
+            ctx.run("C11.flatten", (e,))
+            ctx.run("C11.fold", (e,))
+            ctx.run("C11.expand", (e, False))
+            if isinstance(e, (p.Sum, p.Product)):
+                ctx.run("C11.terms", ("sum" if isinstance(e, p.Sum) else "product", list(e.children)))
         # kinds of numbers in every constant position of the rewrites' fragment
         import numpy as np
         from fractions import Fraction
@@ -678,6 +743,8 @@ def workload(ctx):
             ctx.count("handler:" + k, v)
         ctx.count("handler:TermCollector.split_term", tr.counts.get("TermCollector.split_term", 0))
     ctx.floor("wide_nodes", 100)
+    ctx.floor("operand_list_calls", 150)
+    ctx.floor("shared_node_trees", 150)
     ctx.floor("power_order_shapes", 15)
     ctx.floor("kind_values", 800)
     ctx.floor("high_powers", 20)
